@@ -2129,4 +2129,84 @@ theorem rrun_noalias_empty (ops : List Op) : (rrun .empty (ops.map .op)).vheap =
 
 example : rheap0.WF ∧ ¬ rheap0.ptr.Nodup ∧ (RefHeap.mk [1, 0] rheap0.cells).ptr.Nodup := by decide
 
+
+/-! ## review t1, C01 item 3: where the reference machine ADOPTS a quirk of the code, stated as a deviation from a plain list of records
+
+`abs_step` relates the table machine to `specStep`; for the table without columns and for tables without rows `specStep` itself follows the code
+(`Recs.getRow` answers `{}` on no columns; `do` / `call` over no row add columns they could not compute).  The theorems below say so against
+readings that do not share the quirk, as was done for the one-row mask (`mask_one_row_repeats`). -/
+
+/-- `records[i]` of a PLAIN python list of records (no dictable involved): IndexError when `i` is out of range - in particular for every `i`
+when there is no record -/
+def getRowPlain (r : Recs) (i : Int) : Except Err (List (String × Cell)) :=
+  match pyIdx r.rows.length i with
+  | some j => .ok (r.cols.zip (r.rows.getD j []))
+  | Option.none => .error .index
+
+theorem pyIdx_zero (i : Int) : pyIdx 0 i = Option.none := by
+  unfold pyIdx
+  split
+  · omega
+  · split
+    · omega
+    · rfl
+
+/-- **deviation 1 (the table without columns)**: `dictable()[i]` is `{}` for EVERY integer `i` (the dict comprehension over no column), where a plain
+list of no records raises IndexError.  The reference `Recs.getRow` ADOPTS this (`if r.cols.isEmpty then .ok []`), so `abs_step` cannot see it; this
+theorem states it as a deviation from the plain reading. -/
+theorem row_nocols (i : Int) :
+    Table.getRow [] i = .ok [] ∧ getRowPlain ⟨[], []⟩ i = .error .index := by
+  constructor
+  · rfl
+  · simp [getRowPlain, pyIdx_zero]
+
+/-- ... and it is the ONLY deviation of `d[i]`: with at least one column the reference row access IS the plain one -/
+theorem getRow_plain (r : Recs) (hc : r.cols ≠ []) (i : Int) : r.getRow i = getRowPlain r i := by
+  have : r.cols.isEmpty = false := by cases h : r.cols <;> simp_all
+  simp only [Recs.getRow, getRowPlain, this, Bool.false_eq_true, if_false]
+  cases pyIdx r.rows.length i <;> rfl
+
+/-- `cell_comm`'s error half without `t ≠ []`: on the no-column table NO index is an error -/
+theorem cell_comm_nocols (i : Int) : pyIdx (0 : Nat) i = Option.none ∧ Table.getRow [] i ≠ .error .index := by
+  refine ⟨pyIdx_zero i, ?_⟩
+  rw [(row_nocols i).1]
+  intro h; cases h
+
+/-- **deviation 2 (a table without rows)**: `d.do(f, k)` for a key `k` the table does not have ADDS the empty column `k` when there is no row (the
+comprehension over no row never looks the key up), where with at least one row it raises KeyError (`do_missing_key_rows`) -/
+theorem do_missing_key_empty (t : Table) (f : DoFn) (k : String) (hr : t.Rect 0) (hk : t.has k = false) :
+    ∃ t', t.doCols f (some [k]) = .ok t' ∧ k ∈ t'.cols := by
+  have hn : t.nrows = 0 := by
+    cases t with
+    | nil => rfl
+    | cons c t => exact hr c List.mem_cons_self
+  have hlen := len_rect' hr
+  refine ⟨t.set k [], ?_, ?_⟩
+  · simp only [doCols, Option.getD_some, doKeys, doKey, hn, List.range_zero, mapE, setitem, hlen, ColVal.value,
+      List.length_nil, beq_self_eq_true, Bool.true_or, if_true]
+  · simp [Table.set, hk, cols]
+
+/-- non-vacuity of `do_missing_key_empty`: a table with one column and no row, a key it lacks -/
+example : Table.Rect [("a", [])] 0 ∧ Table.has [("a", [])] "zz" = false := by decide
+
+/-- ... with at least one row the missing key is a KeyError, as for a list of records (`row['zz']`) -/
+theorem do_missing_key_rows (t : Table) (f : DoFn) (k : String) (n : Nat) (hr : t.Rect (n + 1)) (hne : t ≠ [])
+    (hk : t.has k = false) : t.doCols f (some [k]) = .error .key := by
+  have hn : t.nrows = n + 1 := by
+    cases t with
+    | nil => exact absurd rfl hne
+    | cons c t => exact hr c List.mem_cons_self
+  have hc : t.col? k = Option.none := by
+    unfold col?
+    have : t.find? (·.1 == k) = Option.none := by
+      rw [List.find?_eq_none]
+      intro x hx hxk
+      have : t.has k = true := by simp only [has, List.any_eq_true]; exact ⟨x, hx, hxk⟩
+      simp [this] at hk
+    simp [this]
+  simp only [doCols, Option.getD_some, doKeys, doKey, hn, List.range_succ_eq_map, mapE, cellAt, hc, Option.map_none]
+
+/-- non-vacuity of `do_missing_key_rows` -/
+example : Table.Rect [("a", [Cell.int 1])] 1 ∧ Table.has [("a", [Cell.int 1])] "zz" = false := by decide
+
 end Pyg.Props.C01
